@@ -7,6 +7,7 @@ import ast
 import typing
 
 from ..core import own_nodes, unparse
+from ..core import clone as _clone
 
 _FLIP = {ast.Lt: ">", ast.LtE: ">=", ast.Gt: "<", ast.GtE: "<=", ast.Eq: "==", ast.NotEq: "!=", ast.Is: "is", ast.IsNot: "is not"}
 _SYM = {ast.Lt: "<", ast.LtE: "<=", ast.Gt: ">", ast.GtE: ">=", ast.Eq: "==", ast.NotEq: "!=", ast.Is: "is", ast.IsNot: "is not"}
@@ -57,7 +58,7 @@ def accessor_shape(e, attr: str) -> str:
     def visit_Name(self, n):
       return ast.Name(id="_", ctx=ast.Load()) if n.id == attr else n
   import copy
-  return unparse(T().visit(copy.deepcopy(e)))
+  return unparse(T().visit(_clone(e)))
 
 
 def is_none_test(test, subject_pred) -> typing.Optional[bool]:
@@ -107,12 +108,105 @@ def inline_single_locals(fnode, expr, depth=3):
   class T(ast.NodeTransformer):
     def visit_Name(self, n):
       if isinstance(n.ctx, ast.Load) and n.id in defs and len(defs[n.id]) == 1:
-        return copy.deepcopy(defs[n.id][0])
+        return _clone(defs[n.id][0])
       return n
-  e = copy.deepcopy(expr)
+  e = _clone(expr)
   for _ in range(depth):
     new = T().visit(e)
     if unparse(new) == unparse(e):
       break
     e = new
   return e
+
+
+class PathUndecided(Exception):
+  pass
+
+
+def path_result(fnode, decide, max_steps=400):
+  """Walk the statements of fnode along the single path selected by decide(test_expr_with_locals_inlined)
+  -> True / False (it raises PathUndecided for a test it cannot decide).  Plain assignments to local
+  names are recorded and inlined into later expressions.  Returns ("return", expr) with locals
+  inlined, ("raise", node) or ("end", None)."""
+  import copy
+  env: typing.Dict[str, ast.AST] = {}
+
+  class Inl(ast.NodeTransformer):
+    def visit_Name(self, n):
+      if isinstance(n.ctx, ast.Load) and n.id in env:
+        return _clone(env[n.id])
+      return n
+
+  def inl(e):
+    return Inl().visit(_clone(e))
+  steps = [0]
+
+  def run(stmts):
+    for st in stmts:
+      steps[0] += 1
+      if steps[0] > max_steps:
+        raise PathUndecided("too many steps")
+      if isinstance(st, ast.Return):
+        return ("return", inl(st.value) if st.value is not None else None)
+      if isinstance(st, ast.Raise):
+        return ("raise", st)
+      if isinstance(st, ast.If):
+        r = run(st.body if decide(inl(st.test)) else st.orelse)
+        if r is not None:
+          return r
+        continue
+      if isinstance(st, ast.Assign) and len(st.targets) == 1 and isinstance(st.targets[0], ast.Name):
+        env[st.targets[0].id] = inl(st.value)
+        continue
+      if isinstance(st, ast.AnnAssign) and isinstance(st.target, ast.Name) and st.value is not None:
+        env[st.target.id] = inl(st.value)
+        continue
+      if isinstance(st, (ast.Expr, ast.Pass, ast.Assert)):
+        continue
+      raise PathUndecided(f"statement {type(st).__name__} at line {getattr(st, 'lineno', '?')}")
+    return None
+  r = run(fnode.body)
+  return r if r is not None else ("end", None)
+
+
+def depends_on(fnode, name: str) -> typing.Set[str]:
+  """Locals whose value may depend on `name` (flow-insensitive closure over assignments,
+  augmented assignments and loop targets; control dependence on a test that reads `name` counts
+  for assignments made under that test)."""
+  dep = {name}
+  changed = True
+  while changed:
+    changed = False
+    for st in own_nodes(fnode):
+      tgts, srcs = [], []
+      if isinstance(st, ast.Assign):
+        tgts, srcs = st.targets, [st.value]
+      elif isinstance(st, ast.AnnAssign) and st.value is not None:
+        tgts, srcs = [st.target], [st.value]
+      elif isinstance(st, ast.AugAssign):
+        tgts, srcs = [st.target], [st.value]
+      elif isinstance(st, (ast.For, ast.comprehension)):
+        tgts, srcs = [st.target], [st.iter]
+      else:
+        continue
+      # control dependence: enclosing if-tests
+      p = getattr(st, "_parent", None)
+      while p is not None and p is not fnode:
+        if isinstance(p, (ast.If, ast.While)):
+          srcs = srcs + [p.test]
+        p = getattr(p, "_parent", None)
+      if any(isinstance(n, ast.Name) and n.id in dep for s in srcs for n in ast.walk(s)):
+        for t in tgts:
+          for n in ast.walk(t):
+            if isinstance(n, ast.Name) and n.id not in dep:
+              dep.add(n.id)
+              changed = True
+  return dep
+
+
+def flows_to_return(fnode, name: str) -> bool:
+  dep = depends_on(fnode, name)
+  for r in own_nodes(fnode):
+    if isinstance(r, ast.Return) and r.value is not None and any(isinstance(n, ast.Name) and n.id in dep for n in ast.walk(r.value)):
+      return True
+  return False
